@@ -135,6 +135,26 @@ def analyse(mod, run, label, table=TABLE):
                     summ[name] = n2
                     continue
         summ[name] = l2(mod, w, B, run, name, fn, inp, lenp, inn, lenn, num, den)
+        # ---- L3: no allocation whose size is dictated by the input alone ----
+        # every malloc / calloc / realloc in a length-taking decoder asks for at most 16 bytes per declared input byte plus a constant
+        # (2^32): a count read from the stream must have been compared with what is left of the input (or with a constant cap) first
+        fi3, F3, P3 = B.fp(fn)
+        Llen = Lin.atom(("arg", lenp))
+        for c in fn.calls():
+            cal = c.get("callee")
+            if cal not in ("malloc", "calloc", "realloc"): continue
+            if cal == "malloc": sz = fi3.lin(c.ops[0])
+            elif cal == "realloc": sz = fi3.lin(c.ops[1])
+            else:
+                a, b_ = fi3.lin(c.ops[0]), fi3.lin(c.ops[1])
+                sz = b_.scale(a.c) if a.is_const() else (a.scale(b_.c) if b_.is_const() else None)
+            n3 = getattr(run, "_l3", 0) + 1; run._l3 = n3
+            if sz is None: ok3 = False
+            elif sz.is_const(): ok3 = sz.c <= (1 << 32)
+            else: ok3 = P3.prove_at(sz - Llen.scale(16 * den // max(num, 1) if den else 16) - (1 << 32), c.block)
+            run.check(ok3, "L3-allocation-bounded-by-input-size", {"fn": name, "at": loc(c), "size": repr(sz)},
+                      Finding("L3-allocation-sized-by-unchecked-input", name, "%s@%s" % (cal, c.d.get("line", "?")), "size",
+                              "%s at %s asks for %r bytes; this is not provably bounded by the declared input size '%s' (16 bytes per input byte + 2^32): a count taken from a hostile stream decides how much memory is requested" % (cal, loc(c), sz, lenn), loc=loc(c)))
     return n_inst, summ
 
 
